@@ -120,8 +120,13 @@ type LogEnv struct {
 	AuditPub  bool // run the storage audit on every checkpoint publication
 	NoTruth   bool // pools are not tracked (concurrent workloads): skip truth-based checks
 	NoDedup   bool // the cache was lost at some point: duplicate leaves are legal
-	auditN    int64
-	pubAudits int64
+	// AuditUploads: every tile the server itself writes must be the exact
+	// rendering of the committed truth (used when storage is adversarial and a
+	// whole-store audit would be meaningless).
+	AuditUploads bool
+	truthMC      *merkleCache
+	auditN       int64
+	pubAudits    int64
 }
 
 var envCounter atomic.Int64
@@ -187,7 +192,7 @@ func (e *LogEnv) Fork() *LogEnv {
 		Truth: append([]*RefEntry(nil), e.Truth...), truthLH: append([]Hash(nil), e.truthLH...),
 		LockObs: append([]CpObs(nil), e.LockObs...), PubObs: append([]CpObs(nil), e.PubObs...),
 		committed: map[string]int64{}, byInst: map[*Inst]*LogInst{},
-		nextSub: e.nextSub, AuditPub: e.AuditPub, NoTruth: e.NoTruth, CaseInfo: e.CaseInfo,
+		nextSub: e.nextSub, AuditPub: e.AuditPub, AuditUploads: e.AuditUploads, NoTruth: e.NoTruth, CaseInfo: e.CaseInfo,
 		Acks: append([]*Ack(nil), e.Acks...), NoDedup: e.NoDedup, broken: e.broken,
 	}
 	for k, v := range e.committed {
@@ -571,6 +576,15 @@ func (e *LogEnv) onUpload(w *World, c *Call) {
 			}
 		}
 	}
+	if e.AuditUploads && !e.NoTruth && !e.broken && strings.HasPrefix(c.Key, "tile/") {
+		// Informational only: with adversarial storage the property constrains
+		// the checkpoints the server signs, not the tiles it derives from what
+		// storage handed it (an attacker could overwrite those directly).
+		if msg := e.auditOneUpload(c); msg != "" {
+			e.R.Count("info_server_uploaded_tile_not_matching_truth:"+keyClass(c.Key), 1)
+		}
+		e.R.Count("uploads_audited", 1)
+	}
 	if c.Key != "checkpoint" {
 		return
 	}
@@ -608,6 +622,53 @@ func (e *LogEnv) onUpload(w *World, c *Call) {
 			e.violate("publish-audit:"+p.Class, "at publication of checkpoint size %d: %s", sth.Size, p.Msg)
 		}
 	}
+}
+
+// auditOneUpload compares one uploaded tile with the reference rendering of
+// the committed truth. Called with e.mu held.
+func (e *LogEnv) auditOneUpload(c *Call) string {
+	t, ok := refParseTilePath(c.Key)
+	if !ok {
+		return "not a canonical tile path"
+	}
+	span := int64(1)
+	if t.L > 0 {
+		span = 1 << (8 * uint(t.L))
+	}
+	end := (t.N*256 + int64(t.W)) * span
+	if end > int64(len(e.Truth)) {
+		return fmt.Sprintf("covers leaves up to %d but only %d are committed", end, len(e.Truth))
+	}
+	start := int(t.N) * 256
+	switch {
+	case t.L >= 0:
+		if e.truthMC == nil || len(e.truthMC.lh) != len(e.truthLH) {
+			e.truthMC = newMerkleCache(e.truthLH)
+		}
+		if !bytes.Equal(c.Data, refHashTile(e.truthMC, t)) {
+			return "hash tile differs"
+		}
+	case t.L == -1:
+		raw, err := refGunzip(c.Data)
+		if err != nil {
+			return "gunzip: " + err.Error()
+		}
+		es, err := refDecodeDataTile(raw, t.W)
+		if err != nil {
+			return "does not decode as " + fmt.Sprint(t.W) + " entries: " + err.Error()
+		}
+		// Only the Merkle-covered fields are compared: fingerprints and the
+		// pre_certificate are not authenticated by the tree, so a server that
+		// carries forward what (adversarial) storage handed it is not at fault.
+		for i, got := range es {
+			want := e.Truth[start+i]
+			if got.Timestamp != want.Timestamp || got.IsPrecert != want.IsPrecert || got.IssuerKeyHash != want.IssuerKeyHash ||
+				!bytes.Equal(got.Cert, want.Cert) || got.LeafIndex != want.LeafIndex || got.Archival {
+				return fmt.Sprintf("entry %d differs from the committed leaf in a Merkle-covered field", start+i)
+			}
+		}
+	}
+	return ""
 }
 
 func keyClass(key string) string {
